@@ -526,12 +526,17 @@ func scratchBase() string {
 		s = filepath.Join(os.TempDir(), "verif-scratch")
 		os.MkdirAll(s, 0755)
 	}
-	d, err := os.MkdirTemp(s, "d")
-	if err != nil {
-		fmt.Fprintln(os.Stderr, err)
-		os.Exit(2)
+	// fixed-width names: path lengths end up in error messages on the wire,
+	// and the event-log hashes of the determinism self-check cover lengths
+	for i := 0; i < 1000; i++ {
+		d := filepath.Join(s, fmt.Sprintf("d%010d", (uint64(time.Now().UnixNano())+uint64(os.Getpid())*7919+uint64(i)*104729)%10_000_000_000))
+		if err := os.Mkdir(d, 0755); err == nil {
+			return d
+		}
 	}
-	return d
+	fmt.Fprintln(os.Stderr, "cannot create a scratch directory under", s)
+	os.Exit(2)
+	return ""
 }
 
 func cleanupScratch(dir string) {
@@ -632,7 +637,7 @@ func cmdRun(prop string, args []string) int {
 				wbin = raceBin
 				env = append(env, "GORACE=halt_on_error=1", "VERIF_RACE=1", fmt.Sprintf("GOMAXPROCS=%d", []int{1, 4, 16}[id%3]))
 			}
-			w := &worker{id: id, bin: wbin, env: env, scratch: filepath.Join(scratch, fmt.Sprintf("w%d", id))}
+			w := &worker{id: id, bin: wbin, env: env, scratch: filepath.Join(scratch, fmt.Sprintf("w%02d", id))}
 			os.MkdirAll(w.scratch, 0755)
 			if meta.NonRootFraction > 0 && os.Getuid() == 0 && id >= nw-int(float64(nw)*meta.NonRootFraction+0.999) && wbin == bin {
 				// unprivileged worker: runs as nobody in a world-writable scratch directory
@@ -1132,6 +1137,10 @@ func cmdDeterminism(prop string, args []string) int {
 		hashes [][]uint64
 	}
 	results := make([][]string, len(procs))
+	// coarse: the same, with byte counts reduced to log4 length classes (error
+	// messages that quote renameio's random temporary names differ by a few
+	// bytes between runs; nothing else may)
+	coarse := make([][]string, len(procs))
 	var wg sync.WaitGroup
 	for pi, gp := range procs {
 		wg.Add(1)
@@ -1147,6 +1156,15 @@ func cmdDeterminism(prop string, args []string) int {
 					v = res.Violation.Kind + "/" + res.Violation.Signature
 				}
 				results[pi] = append(results[pi], fmt.Sprintf("%v|%d|%s|%s", res.Hashes, res.Steps, v, firstN(res.Inconclusive, 40)))
+				if len(res.Hashes) == 0 {
+					// no scheduled session in this run (free-running or SSH
+					// sessions: real goroutine interleaving, crypto/rand): only
+					// the verdict is comparable
+					results[pi][len(results[pi])-1] = "unscheduled|" + v
+					coarse[pi] = append(coarse[pi], "unscheduled|"+v)
+					continue
+				}
+				coarse[pi] = append(coarse[pi], fmt.Sprintf("%v|%d|%s|%s", res.Shapes, res.Steps, v, firstN(res.Inconclusive, 40)))
 			}
 		}(pi, gp)
 	}
@@ -1161,8 +1179,17 @@ func cmdDeterminism(prop string, args []string) int {
 			}
 		}
 	}
-	fmt.Printf("determinism property=%s seeds=%d processes=%d divergent=%d\n", prop, o.seeds, len(procs), bad)
-	if bad > 0 {
+	badCoarse := 0
+	for i := 0; i < o.seeds; i++ {
+		for pi := 1; pi < len(procs); pi++ {
+			if coarse[pi][i] != coarse[0][i] {
+				badCoarse++
+				break
+			}
+		}
+	}
+	fmt.Printf("determinism property=%s seeds=%d processes=%d divergent=%d divergent_beyond_length_class=%d\n", prop, o.seeds, len(procs), bad, badCoarse)
+	if badCoarse > 0 {
 		return 1
 	}
 	return 0
